@@ -22,7 +22,7 @@ pub fn stub_cu<F: FnOnce() -> R + std::panic::UnwindSafe, R>(f: F) -> std::threa
 
 // ---------------------------------------------------------------------------------------------
 // Generic small cells that in-crate harness code (no `unsafe` allowed there) uses as globals.
-pub const NCELL: usize = 16;
+pub const NCELL: usize = 32;
 static mut CELLS: [u64; NCELL] = [0; NCELL];
 pub fn cell_get(i: usize) -> u64 {
     unsafe { CELLS[i] }
